@@ -458,6 +458,34 @@ def sign_verify_agreement(rep, u, consts):
     return n
 
 
+def sign_once_rule(rep, ur, uc):
+    """radius_pkt_sign transforms the packet in place: the User-Password value is hidden from and to the attribute's own
+    bytes, and with add_msg_authr != 0 a Message-Authenticator attribute is appended (EEXIST if there is one).  It is
+    therefore not idempotent, and a packet must be signed at most once.  The client signs inside radius_client_send_new;
+    that function may run again for the same query (fail-over to the next server, with that server's secret)."""
+    fs = ur.fn("radius_pkt_sign")
+    fc = uc.fn("radius_client_send_new")
+    if fs is None or fc is None:
+        raise driver.AnalysisBroken("anchors radius_pkt_sign / radius_client_send_new vanished")
+    rep.functions.update([fs.name, fc.name])
+    inplace = False
+    for _p, _r, c, _ps in fs.calls({"radius_pkt_attr_password_encode"}):
+        if len(c["args"]) >= 6 and key(strip_casts(c["args"][1])) == key(strip_casts(c["args"][5])):
+            inplace = True
+    signs = [c for _p, _r, c, _ps in fc.calls({"radius_pkt_sign"})]
+    sites = [(f.name, c.get("ln")) for f in uc.function_list if f.has_cfg for _p, _r, c, _ps in f.calls({fc.name})]
+    desc = "a packet whose User-Password radius_pkt_sign hides in place is signed at most once (radius_client_send_new has one caller per query)"
+    if not signs:
+        rep.proved("R-TS", fc, "sign-once", desc, "the client does not sign in radius_client_send_new")
+    elif inplace and len(sites) > 1:
+        rep.violated("R-TS", fc, "sign-once", desc, "radius_client_send_new (which signs at line %s) is called from %s: on fail-over the same buffer is signed "
+                     "again - the already hidden password is hidden a second time and, with add_msg_authr = 1, the second call returns EEXIST" % (
+                         signs[0].get("ln"), ", ".join("%s:%s" % s_ for s_ in sites)), signs[0].get("ln"))
+    else:
+        rep.proved("R-TS", fc, "sign-once", desc, "in-place hiding: %s; call sites: %d" % (inplace, len(sites)))
+    return 1
+
+
 def _merge(rs):
     out = []
     for r in rs:
@@ -1071,6 +1099,7 @@ def run(rep, tier):
     rep.floor("constant-length pointer/object pairs", npl, 20)
     rep.floor("hash stream cases", stream_rule(rep, ur, consts), 200)
     rep.floor("sign/verify authenticator sources", sign_verify_agreement(rep, ur, consts), 14)
+    sign_once_rule(rep, ur, us["src/proto/radius_client.c"])
     rep.floor("password hiding cases", hiding_rule(rep, ur), 12)
     rep.floor("builder arms", live_rule(rep, ur, consts), 5)
     rep.floor("password lengths sized", password_size_rule(rep, ur, consts), 11)
